@@ -8,6 +8,7 @@ import contextlib
 import io
 import json
 import multiprocessing as mp
+from harness.par import RobustPool
 
 from harness.common import Check, NPROC, chunks
 from harness.tlc import run_tlc
@@ -57,7 +58,7 @@ def run(tier, seed):
     res = run_tlc("MC_Analyzer", "MC_Analyzer", workdir=chk.dir, env={"TIER": tier}, timeout=3000)
     chk.add_tlc(res)
     cases = list(enumerate(res.records))
-    with mp.get_context("fork").Pool(NPROC) as pool:
+    with RobustPool(NPROC) as pool:
         outs = pool.map(work, chunks(cases, NPROC * 4))
     for _, c in cases:
         chk.note_case({k: c[k] for k in ("ax", "gs", "keys")}, len(c["steps"]) >= 2)
